@@ -1,3 +1,635 @@
 import GnpyModel
-/- Property theorems for C18 (only the property theorems and their non-vacuity examples live here;
-   helper lemmas go to GnpyProofs/Lemmas). -/
+import GnpyProofs.Lemmas.Round
+import GnpyProofs.Lemmas.Yang
+/- Property theorems for C18 — input documents mean the same thing in legacy and YANG form.
+   Models: GnpyModel/Round.lean (decimal formatting), GnpyModel/Json.lean, GnpyModel/Yang.lean.
+   Only the property theorems and their non-vacuity examples live here; helper lemmas are in
+   GnpyProofs/Lemmas/{Round,Json,Yang}.lean. -/
+namespace Gnpy.Round
+
+/-- **values are preserved to the declared precision.**  The text printed for a double `x` with `d`
+declared fraction digits denotes the decimal `R / 10^d` (`R = roundDigits x d`); it differs from the
+exact binary value of `x` by at most half a unit of the last declared digit. -/
+theorem fmt_error_bound (x : Dyadic) (d : Nat) :
+    |(roundDigits x d : ℚ) / (10 : ℚ) ^ d - x.absVal| ≤ 1 / 2 / (10 : ℚ) ^ d := by
+  obtain ⟨hpos, hval⟩ := scaled_spec x d
+  have he := roundHalfEvenDiv_err (scaled x d).1 (scaled x d).2 hpos
+  rw [hval] at he
+  have hp : (0 : ℚ) < (10 : ℚ) ^ d := by positivity
+  unfold roundDigits
+  simp only
+  have : ((roundHalfEvenDiv (scaled x d).1 (scaled x d).2 : ℚ)) / (10 : ℚ) ^ d - x.absVal
+      = ((roundHalfEvenDiv (scaled x d).1 (scaled x d).2 : ℚ) - x.absVal * (10 : ℚ) ^ d) / (10 : ℚ) ^ d := by
+    field_simp
+  rw [this, abs_div, abs_of_pos hp]
+  exact div_le_div_of_nonneg_right he (le_of_lt hp)
+
+/-- **a second pass changes nothing.**  Any double `y` that lies strictly within half a unit of the
+last declared digit of the decimal printed for `x` (in particular the double `float(text)` that
+`convert_back` reads, as long as |x|·10^d < 2^52) is printed with the same digits again. -/
+theorem fmt_fixpoint (x y : Dyadic) (d : Nat)
+    (h : |y.absVal - (roundDigits x d : ℚ) / (10 : ℚ) ^ d| < 1 / 2 / (10 : ℚ) ^ d) :
+    roundDigits y d = roundDigits x d := by
+  obtain ⟨hpos, hval⟩ := scaled_spec y d
+  have hp : (0 : ℚ) < (10 : ℚ) ^ d := by positivity
+  show roundHalfEvenDiv (scaled y d).1 (scaled y d).2 = roundDigits x d
+  apply roundHalfEvenDiv_unique _ _ _ hpos
+  rw [hval]
+  have : ((roundDigits x d : ℚ)) - y.absVal * (10 : ℚ) ^ d
+      = -((y.absVal - (roundDigits x d : ℚ) / (10 : ℚ) ^ d) * (10 : ℚ) ^ d) := by
+    field_simp
+    ring
+  rw [this, abs_neg, abs_mul, abs_of_pos hp]
+  calc |y.absVal - (roundDigits x d : ℚ) / (10 : ℚ) ^ d| * (10 : ℚ) ^ d
+      < 1 / 2 / (10 : ℚ) ^ d * (10 : ℚ) ^ d := mul_lt_mul_of_pos_right h hp
+    _ = 1 / 2 := by field_simp
+
+/-- printing is a fixpoint on values that already have at most `d` digits: R/10^d prints as R -/
+theorem fmt_exact (x : Dyadic) (d R : Nat) (h : x.absVal = (R : ℚ) / (10 : ℚ) ^ d) :
+    roundDigits x d = R := by
+  obtain ⟨hpos, hval⟩ := scaled_spec x d
+  have hp : (0 : ℚ) < (10 : ℚ) ^ d := by positivity
+  show roundHalfEvenDiv (scaled x d).1 (scaled x d).2 = R
+  apply roundHalfEvenDiv_unique _ _ _ hpos
+  rw [hval, h]
+  have : (R : ℚ) - (R : ℚ) / (10 : ℚ) ^ d * (10 : ℚ) ^ d = 0 := by field_simp; ring
+  rw [this]; norm_num
+
+/-- non-vacuity: 0.125 printed with two digits is the tie 12.5 → "0.12" (half-even), and the bound
+    is attained -/
+example : roundDigits ⟨false, 1, -3⟩ 2 = 12 := by decide
+example : fmtBits 4593671619917905920 2 = some "0.12" := by decide
+example : fmtBits 4600427019358961664 2 = some "0.38" := by decide
+
+end Gnpy.Round
+
+namespace Gnpy.Yang
+open Gnpy
+
+/-! ### nulls -/
+
+/-- **`None ↔ [None]` are inverse.**  For every legacy tree (no `[null]` list in it) turning every
+null into `[null]` and back gives the tree again; -/
+theorem none_empty_inverse (j : J) (h : noBoxedNull j = true) : emptyToNone (noneToEmpty j) = j :=
+  emptyToNone_noneToEmpty j h
+
+/-- and `convert_none_to_empty` is idempotent on every tree (first step of `legacy_to_yang`) -/
+theorem none_to_empty_idempotent (j : J) : noneToEmpty (noneToEmpty j) = noneToEmpty j :=
+  noneToEmpty_idem j
+
+example : noBoxedNull (.obj [("out_voa", .null), ("amps", .arr [.null, .flt 3])]) = true := by decide
+example : emptyToNone (noneToEmpty (.obj [("out_voa", .null), ("amps", .arr [.null, .flt 3])]))
+    = .obj [("out_voa", .null), ("amps", .arr [.null, .flt 3])] := by decide
+
+/-! ### decimal strings: second pass of `convert_dict` -/
+
+/-- **`convert_dict` is idempotent.**  If the first pass succeeded and left no binary float behind
+(it leaves one only for an integer stored under a string-typed key, which libyang refuses), a second
+pass with the same declared digits returns the same tree: strings are kept, integers under
+integer-typed keys are kept. -/
+theorem convert_dict_idempotent (rp rp' : List (Nat × String)) (fd : Int) (j r : J)
+    (h : convertDict rp fd j = .ok r) (hn : noFlt r = true) : convertDict rp' fd r = .ok r :=
+  convertDict_second rp rp' fd j r h hn
+
+example : convertDict [] 2 (.obj [("gain_target", .flt 4625619029774565376), ("N", .int 3), ("loss", .int 2)])
+    = .ok (.obj [("gain_target", .str "17.5"), ("N", .int 3), ("loss", .str "2.0")]) := by decide
+
+/-! ### per-degree targets of the three kinds -/
+
+/-- a legacy per-degree entry: absent, or a non-empty dict with distinct degree names -/
+def WfKind (p : Dict) (k : String) : Prop :=
+  p.get? k = none ∨ ∃ ts : Dict, p.get? k = some (.obj ts) ∧ ts ≠ [] ∧ (ts.map (·.1)).Nodup
+
+/-- what `popTargets` returns on a well-formed entry: the key is gone, the contribution is the list of
+the entry's targets (`T = []` exactly when the key was absent) -/
+theorem popTargets_spec (k : String) (p : Dict) (h : WfKind p k) :
+    ∃ T : Dict, popTargets k p = .ok (p.erase k, targetsOf k T) ∧
+      p.get? k = (if T = [] then none else some (.obj T)) ∧ (T = [] ∨ (T.map (·.1)).Nodup) := by
+  rcases h with h | ⟨ts, h, hne, hnd⟩
+  · exact ⟨[], by simp [popTargets, h, Dict.erase_of_get?_none p k h, targetsOf, pure, Except.pure], by simp [h], Or.inl rfl⟩
+  · refine ⟨ts, ?_, by simp [h, hne], Or.inr hnd⟩
+    have : (J.obj ts).truthy = true := by
+      cases ts with
+      | nil => exact absurd rfl hne
+      | cons _ _ => rfl
+    simp [popTargets, h, this, pure, Except.pure]
+
+theorem applyTargets_step (k : String) (hk : k ∈ eqTypes) (P T : Dict) (hP : P.get? k = none)
+    (hT : T = [] ∨ (T.map (·.1)).Nodup) :
+    ∃ q, applyTargets (targetsOf k T) P = .ok q ∧
+      q.get? k = (if T = [] then none else some (.obj T)) ∧ ∀ k', k' ≠ k → q.get? k' = P.get? k' := by
+  by_cases hT0 : T = []
+  · subst hT0
+    exact ⟨P, by simp [targetsOf, applyTargets, pure, Except.pure], by simpa using hP, fun _ _ => rfl⟩
+  · rcases hT with hT | hT
+    · exact absurd hT hT0
+    · obtain ⟨q, h1, h2, h3⟩ := applyTargets_targetsOf_fresh k hk T P hP hT0 hT
+      exact ⟨q, h1, by simp [hT0, h2], h3⟩
+
+/-- **every per-degree target of the three kinds survives legacy → YANG → legacy, in order.**
+For a ROADM `params` dict in legacy form whose `per_degree_pch_out_db`, `per_degree_psd_out_mWperGHz`
+and `per_degree_psd_out_mWperSlotWidth` entries are absent or non-empty dicts with distinct degree
+names, `convert_degree` followed by `convert_back_degree` succeeds and gives a dict with the same
+value under every key – in particular each of the three degree dicts comes back entry for entry in
+the original order (values are equal as trees, so the order inside them is part of the claim). -/
+theorem degree_roundtrip (p : Dict) (h0 : p.get? "per_degree_power_targets" = none)
+    (h1 : WfKind p "per_degree_pch_out_db") (h2 : WfKind p "per_degree_psd_out_mWperGHz")
+    (h3 : WfKind p "per_degree_psd_out_mWperSlotWidth") :
+    ∃ y q, degreeToYang p = .ok y ∧ degreeToLegacy y = .ok q ∧ ∀ k, q.get? k = p.get? k := by
+  have n12 : ("per_degree_pch_out_db" : String) ≠ "per_degree_psd_out_mWperGHz" := by decide
+  have n13 : ("per_degree_pch_out_db" : String) ≠ "per_degree_psd_out_mWperSlotWidth" := by decide
+  have n23 : ("per_degree_psd_out_mWperGHz" : String) ≠ "per_degree_psd_out_mWperSlotWidth" := by decide
+  have n1p : ("per_degree_pch_out_db" : String) ≠ "per_degree_power_targets" := by decide
+  have n2p : ("per_degree_psd_out_mWperGHz" : String) ≠ "per_degree_power_targets" := by decide
+  have n3p : ("per_degree_psd_out_mWperSlotWidth" : String) ≠ "per_degree_power_targets" := by decide
+  obtain ⟨T1, e1, g1, w1⟩ := popTargets_spec _ p h1
+  have h2' : WfKind (p.erase "per_degree_pch_out_db") "per_degree_psd_out_mWperGHz" := by
+    unfold WfKind; rw [Dict.get?_erase_other _ _ _ n12]; exact h2
+  obtain ⟨T2, e2, g2, w2⟩ := popTargets_spec _ _ h2'
+  have h3' : WfKind ((p.erase "per_degree_pch_out_db").erase "per_degree_psd_out_mWperGHz")
+      "per_degree_psd_out_mWperSlotWidth" := by
+    unfold WfKind; rw [Dict.get?_erase_other _ _ _ n23, Dict.get?_erase_other _ _ _ n13]; exact h3
+  obtain ⟨T3, e3, g3, w3⟩ := popTargets_spec _ _ h3'
+  rw [Dict.get?_erase_other _ _ _ n12] at g2
+  rw [Dict.get?_erase_other _ _ _ n23, Dict.get?_erase_other _ _ _ n13] at g3
+  set p3 := ((p.erase "per_degree_pch_out_db").erase "per_degree_psd_out_mWperGHz").erase
+    "per_degree_psd_out_mWperSlotWidth" with hp3
+  set newT := targetsOf "per_degree_pch_out_db" T1 ++ targetsOf "per_degree_psd_out_mWperGHz" T2 ++
+    targetsOf "per_degree_psd_out_mWperSlotWidth" T3 with hnewT
+  have hy : degreeToYang p = .ok (if newT.isEmpty then p3 else p3.set "per_degree_power_targets" (.arr newT)) := by
+    simp only [degreeToYang, e1, e2, e3, bind, Except.bind, pure, Except.pure]
+    split <;> rfl
+  -- lookups in p3
+  have p3k1 : p3.get? "per_degree_pch_out_db" = none := by
+    rw [hp3, Dict.get?_erase_other _ _ _ n13.symm, Dict.get?_erase_other _ _ _ n12.symm, Dict.get?_erase_same]
+  have p3k2 : p3.get? "per_degree_psd_out_mWperGHz" = none := by
+    rw [hp3, Dict.get?_erase_other _ _ _ n23.symm, Dict.get?_erase_same]
+  have p3k3 : p3.get? "per_degree_psd_out_mWperSlotWidth" = none := by
+    rw [hp3, Dict.get?_erase_same]
+  have p3o : ∀ k, k ≠ "per_degree_pch_out_db" → k ≠ "per_degree_psd_out_mWperGHz" →
+      k ≠ "per_degree_psd_out_mWperSlotWidth" → p3.get? k = p.get? k := by
+    intro k a b c
+    rw [hp3, Dict.get?_erase_other _ _ _ c.symm, Dict.get?_erase_other _ _ _ b.symm, Dict.get?_erase_other _ _ _ a.symm]
+  -- replaying the targets on any dict that looks like p3 (the three kinds absent)
+  have replay : ∀ P : Dict, (∀ k, k ≠ "per_degree_power_targets" → P.get? k = p3.get? k) →
+      P.get? "per_degree_power_targets" = none →
+      ∃ q, applyTargets newT P = .ok q ∧ ∀ k, q.get? k = p.get? k := by
+    intro P hP hPp
+    obtain ⟨q1, a1, b1, c1⟩ := applyTargets_step "per_degree_pch_out_db" (by simp [eqTypes]) P T1
+      (by rw [hP _ n1p, p3k1]) w1
+    obtain ⟨q2, a2, b2, c2⟩ := applyTargets_step "per_degree_psd_out_mWperGHz" (by simp [eqTypes]) q1 T2
+      (by rw [c1 _ n12.symm, hP _ n2p, p3k2]) w2
+    obtain ⟨q3, a3, b3, c3⟩ := applyTargets_step "per_degree_psd_out_mWperSlotWidth" (by simp [eqTypes]) q2 T3
+      (by rw [c2 _ n23.symm, c1 _ n13.symm, hP _ n3p, p3k3]) w3
+    refine ⟨q3, ?_, ?_⟩
+    · rw [hnewT, applyTargets_append, applyTargets_append]
+      simp only [a1, a2, a3, bind, Except.bind]
+    · intro k
+      by_cases k3 : k = "per_degree_psd_out_mWperSlotWidth"
+      · rw [k3, b3, g3]
+      · rw [c3 k k3]
+        by_cases k2 : k = "per_degree_psd_out_mWperGHz"
+        · rw [k2, b2, g2]
+        · rw [c2 k k2]
+          by_cases k1 : k = "per_degree_pch_out_db"
+          · rw [k1, b1, g1]
+          · rw [c1 k k1]
+            by_cases kp : k = "per_degree_power_targets"
+            · rw [kp, hPp, h0]
+            · rw [hP k kp, p3o k k1 k2 k3]
+  by_cases hemp : newT.isEmpty = true
+  · -- nothing to convert: the YANG form is the dict itself
+    refine ⟨p3, p3, by rw [hy]; simp [hemp], ?_, ?_⟩
+    · have : p3.get? "per_degree_power_targets" = none := by rw [p3o _ n1p.symm n2p.symm n3p.symm, h0]
+      simp [degreeToLegacy, this, pure, Except.pure]
+    · have hnil : newT = [] := List.isEmpty_iff.1 hemp
+      obtain ⟨q, hq, hqk⟩ := replay p3 (fun _ _ => rfl) (by rw [p3o _ n1p.symm n2p.symm n3p.symm, h0])
+      rw [hnil] at hq
+      simp only [applyTargets, pure, Except.pure, Except.ok.injEq] at hq
+      subst hq
+      exact hqk
+  · refine ⟨p3.set "per_degree_power_targets" (.arr newT), ?_⟩
+    have hne : newT ≠ [] := fun e => hemp (by simp [e])
+    have htr : (J.arr newT).truthy = true := by
+      cases hh : newT with
+      | nil => exact absurd hh hne
+      | cons _ _ => rfl
+    obtain ⟨q, hq, hqk⟩ := replay ((p3.set "per_degree_power_targets" (.arr newT)).erase "per_degree_power_targets")
+      (fun k hk => by rw [Dict.get?_erase_other _ _ _ (Ne.symm hk), Dict.get?_set_other _ _ _ _ (Ne.symm hk)])
+      (Dict.get?_erase_same _ _)
+    refine ⟨q, by rw [hy]; simp [hemp], ?_, hqk⟩
+    simp only [degreeToLegacy, Dict.get?_set_same, htr, Bool.not_true, Bool.false_eq_true, if_false, asArr,
+      bind, Except.bind, pure, Except.pure]
+    exact hq
+
+/-- non-vacuity: two kinds, three degrees; the round trip gives back the dict (here even with the
+    same key order because the per-degree keys were the last ones) -/
+example : (degreeToYang [("target_pch_out_db", .int (-20)),
+      ("per_degree_pch_out_db", .obj [("east", .int (-19)), ("west", .int (-21))]),
+      ("per_degree_psd_out_mWperGHz", .obj [("north", .int 1)])] >>= degreeToLegacy)
+    = .ok [("target_pch_out_db", .int (-20)),
+      ("per_degree_pch_out_db", .obj [("east", .int (-19)), ("west", .int (-21))]),
+      ("per_degree_psd_out_mWperGHz", .obj [("north", .int 1)])] := by decide
+
+/-! ### design bands per degree, per-frequency loss, Raman coefficient -/
+
+/-- **every per-degree design band list survives, in order.** -/
+theorem design_band_roundtrip (p : Dict) (T : Dict) (h0 : p.get? "per_degree_design_bands_targets" = none)
+    (h1 : p.get? "per_degree_design_bands" = some (.obj T)) (hne : T ≠ []) (hnd : (T.map (·.1)).Nodup) :
+    ∃ y q, designBandToYang p = .ok y ∧ designBandToLegacy y = .ok q ∧ ∀ k, q.get? k = p.get? k := by
+  have n : ("per_degree_design_bands" : String) ≠ "per_degree_design_bands_targets" := by decide
+  have htr : (J.obj T).truthy = true := by
+    cases T with
+    | nil => exact absurd rfl hne
+    | cons _ _ => rfl
+  set newT := T.map (fun dv => J.obj [("degree_uid", .str dv.1), ("design_bands", dv.2)]) with hnewT
+  have hy : designBandToYang p = .ok ((p.erase "per_degree_design_bands").set "per_degree_design_bands_targets" (.arr newT)) := by
+    simp [designBandToYang, h1, htr, pure, Except.pure, hnewT]
+  have htr2 : (J.arr newT).truthy = true := by
+    cases T with
+    | nil => exact absurd rfl hne
+    | cons _ _ => rfl
+  have hcol : collectBands newT [] = .ok ([] ++ T) := collectBands_generated T [] (by simpa using hnd)
+  have hTe : T.isEmpty = false := by
+    cases T with
+    | nil => exact absurd rfl hne
+    | cons _ _ => rfl
+  refine ⟨_, ((((p.erase "per_degree_design_bands").set "per_degree_design_bands_targets" (.arr newT)).erase
+    "per_degree_design_bands_targets").set "per_degree_design_bands" (.obj T)), hy, ?_, ?_⟩
+  · simp only [designBandToLegacy, Dict.get?_set_same, htr2, Bool.not_true, Bool.false_eq_true, if_false, asArr,
+      bind, Except.bind, pure, Except.pure, hcol, List.nil_append, hTe]
+  · intro k
+    by_cases k1 : k = "per_degree_design_bands"
+    · rw [k1, Dict.get?_set_same, h1]
+    · rw [Dict.get?_set_other _ _ _ _ (Ne.symm k1)]
+      by_cases k2 : k = "per_degree_design_bands_targets"
+      · rw [k2, Dict.get?_erase_same, h0]
+      · rw [Dict.get?_erase_other _ _ _ (Ne.symm k2), Dict.get?_set_other _ _ _ _ (Ne.symm k2),
+          Dict.get?_erase_other _ _ _ (Ne.symm k1)]
+
+/-- **the per-frequency loss list survives, entry by entry.**  `loss_coef: {value: [...],
+frequency: [...]}` (lists of equal length, not empty) goes to `loss_coef_per_frequency` and back;
+afterwards `loss_coef` holds the same two lists (keys in the order frequency, value) and every
+other key of `params` is untouched. -/
+theorem loss_coef_roundtrip (p lc : Dict) (fl vl : List J)
+    (h0 : p.get? "loss_coef_per_frequency" = none)
+    (h1 : p.get? "loss_coef" = some (.obj lc))
+    (hv : lc.get? "value" = some (.arr vl)) (hf : lc.get? "frequency" = some (.arr fl))
+    (hne : vl ≠ []) (hlen : fl.length = vl.length) :
+    ∃ y q, lossCoefToYang p = .ok y ∧ lossCoefToLegacy y = .ok q ∧
+      q.get? "loss_coef" = some (.obj [("frequency", .arr fl), ("value", .arr vl)]) ∧
+      ∀ k, k ≠ "loss_coef" → q.get? k = p.get? k := by
+  have n : ("loss_coef" : String) ≠ "loss_coef_per_frequency" := by decide
+  have nfv : ("frequency" : String) ≠ "loss_coef_value" := by decide
+  have htr : (J.arr vl).truthy = true := by
+    cases vl with
+    | nil => exact absurd rfl hne
+    | cons _ _ => rfl
+  have hfl : fl ≠ [] := by
+    intro e; rw [e] at hlen; exact hne (List.length_eq_zero_iff.1 hlen.symm)
+  set z := zipDicts "frequency" "loss_coef_value" fl vl with hz
+  have hy : lossCoefToYang p = .ok ((p.erase "loss_coef").set "loss_coef_per_frequency" (.arr z)) := by
+    simp [lossCoefToYang, h1, hv, hf, htr, asArr, bind, Except.bind, pure, Except.pure, hz]
+  have hzne : z ≠ [] := zipDicts_ne_nil _ _ _ _ hfl hlen
+  have htr2 : (J.arr z).truthy = true := by
+    cases hh : z with
+    | nil => exact absurd hh hzne
+    | cons _ _ => rfl
+  refine ⟨_, ((((p.erase "loss_coef").set "loss_coef_per_frequency" (.arr z)).erase
+    "loss_coef_per_frequency").set "loss_coef" (.obj [("frequency", .arr fl), ("value", .arr vl)])), hy, ?_, ?_, ?_⟩
+  · have c1 : column "frequency" z = .ok fl := column_zipDicts_fst _ _ nfv fl vl hlen
+    have c2 : column "loss_coef_value" z = .ok vl := column_zipDicts_snd _ _ nfv fl vl hlen
+    simp only [lossCoefToLegacy, Dict.get?_set_same, htr2, Bool.not_true, Bool.false_eq_true, if_false, asArr,
+      bind, Except.bind, pure, Except.pure, c1, c2]
+  · rw [Dict.get?_set_same]
+  · intro k k1
+    rw [Dict.get?_set_other _ _ _ _ (Ne.symm k1)]
+    by_cases k2 : k = "loss_coef_per_frequency"
+    · rw [k2, Dict.get?_erase_same, h0]
+    · rw [Dict.get?_erase_other _ _ _ (Ne.symm k2), Dict.get?_set_other _ _ _ _ (Ne.symm k2),
+        Dict.get?_erase_other _ _ _ (Ne.symm k1)]
+
+/-- **the Raman coefficient of a fibre element survives, entry by entry**, with its reference
+frequency. -/
+theorem raman_coef_roundtrip (p rc : Dict) (fl gl : List J) (rf : J)
+    (h1 : p.get? "raman_coefficient" = some (.obj rc))
+    (hg : rc.get? "g0" = some (.arr gl)) (hf : rc.get? "frequency_offset" = some (.arr fl))
+    (hr : rc.get? "reference_frequency" = some rf)
+    (hne : fl ≠ []) (hlen : fl.length = gl.length) :
+    ∃ y q, ramanCoefToYang p = .ok y ∧ ramanCoefToLegacy y = .ok q ∧
+      q.get? "raman_coefficient" = some (.obj [("reference_frequency", rf), ("g0", .arr gl), ("frequency_offset", .arr fl)]) ∧
+      ∀ k, k ≠ "raman_coefficient" → q.get? k = p.get? k := by
+  have nfg : ("frequency_offset" : String) ≠ "g0" := by decide
+  have htr : (J.arr fl).truthy = true := by
+    cases fl with
+    | nil => exact absurd rfl hne
+    | cons _ _ => rfl
+  have hin : pyIn "g0" (J.obj rc) = true := by
+    simp only [pyIn]; exact (Dict.has_true_iff rc "g0").2 ⟨_, hg⟩
+  have hrf : ((rc.erase "g0").erase "frequency_offset").get "reference_frequency" = .ok rf := by
+    simp only [Dict.get]
+    rw [Dict.get?_erase_other _ _ _ (by decide), Dict.get?_erase_other _ _ _ (by decide), hr]
+    rfl
+  set z := zipDicts "frequency_offset" "g0" fl gl with hz
+  have hy : ramanCoefToYang p = .ok ((p.erase "raman_coefficient").set "raman_coefficient"
+      (.obj [("reference_frequency", rf), ("g0_per_frequency", .arr z)])) := by
+    simp [ramanCoefToYang, h1, hin, asObj, popD, hg, hf, htr, hrf, asArr, bind, Except.bind, pure, Except.pure, hz]
+  have c1 : column "frequency_offset" z = .ok fl := column_zipDicts_fst _ _ nfg fl gl hlen
+  have c2 : column "g0" z = .ok gl := column_zipDicts_snd _ _ nfg fl gl hlen
+  have hfe : fl.isEmpty = false := by
+    cases fl with
+    | nil => exact absurd rfl hne
+    | cons _ _ => rfl
+  refine ⟨_, (((p.erase "raman_coefficient").set "raman_coefficient"
+      (.obj [("reference_frequency", rf), ("g0_per_frequency", .arr z)])).erase "raman_coefficient").set "raman_coefficient"
+      (.obj [("reference_frequency", rf), ("g0", .arr gl), ("frequency_offset", .arr fl)]), hy, ?_, ?_, ?_⟩
+  · have hin2 : pyIn "g0_per_frequency" (J.obj [("reference_frequency", rf), ("g0_per_frequency", .arr z)]) = true := by
+      simp [pyIn, Dict.has]
+    simp only [ramanCoefToLegacy, Dict.get?_set_same, hin2, Bool.not_true, Bool.false_eq_true, if_false, asObj, popD,
+      Dict.get?, asArr, bind, Except.bind, pure, Except.pure]
+    simp [c1, c2, hfe, Dict.get, Dict.get?, Dict.erase, bind, Except.bind, pure, Except.pure]
+  · rw [Dict.get?_set_same]
+  · intro k k1
+    rw [Dict.get?_set_other _ _ _ _ (Ne.symm k1), Dict.get?_erase_other _ _ _ (Ne.symm k1),
+      Dict.get?_set_other _ _ _ _ (Ne.symm k1), Dict.get?_erase_other _ _ _ (Ne.symm k1)]
+
+/-! ### every structural converter is a no-op on its own output -/
+
+theorem popTargets_absent (k : String) (p : Dict) (h : p.get? k = none) : popTargets k p = .ok (p, []) := by
+  simp [popTargets, h, pure, Except.pure]
+
+/-- `convert_degree` applied to its own output changes nothing -/
+theorem degree_to_yang_idempotent (p y : Dict) (h : degreeToYang p = .ok y) : degreeToYang y = .ok y := by
+  simp only [degreeToYang, bind_ok, pure_ok] at h
+  obtain ⟨⟨p1, t1⟩, e1, ⟨p2, t2⟩, e2, ⟨p3, t3⟩, e3, h⟩ := h
+  have n12 : ("per_degree_pch_out_db" : String) ≠ "per_degree_psd_out_mWperGHz" := by decide
+  have n13 : ("per_degree_pch_out_db" : String) ≠ "per_degree_psd_out_mWperSlotWidth" := by decide
+  have n23 : ("per_degree_psd_out_mWperGHz" : String) ≠ "per_degree_psd_out_mWperSlotWidth" := by decide
+  -- after popping, the key is absent
+  have pop_none : ∀ (k : String) (a b : Dict) (t : List J), popTargets k a = .ok (b, t) → b.get? k = none ∧
+      ∀ k', k' ≠ k → b.get? k' = a.get? k' := by
+    intro k a b t hk
+    unfold popTargets at hk
+    split at hk
+    · rename_i hn
+      simp only [pure_ok, Prod.mk.injEq] at hk
+      obtain ⟨rfl, _⟩ := hk
+      exact ⟨hn, fun _ _ => rfl⟩
+    · split at hk
+      · simp only [pure_ok, Prod.mk.injEq] at hk
+        obtain ⟨rfl, _⟩ := hk
+        exact ⟨Dict.get?_erase_same _ _, fun k' hk' => Dict.get?_erase_other _ _ _ (Ne.symm hk')⟩
+      · split at hk
+        · simp only [pure_ok, Prod.mk.injEq] at hk
+          obtain ⟨rfl, _⟩ := hk
+          exact ⟨Dict.get?_erase_same _ _, fun k' hk' => Dict.get?_erase_other _ _ _ (Ne.symm hk')⟩
+        · simp [attributeError] at hk
+  obtain ⟨a1, b1⟩ := pop_none _ _ _ _ e1
+  obtain ⟨a2, b2⟩ := pop_none _ _ _ _ e2
+  obtain ⟨a3, b3⟩ := pop_none _ _ _ _ e3
+  have k1 : p3.get? "per_degree_pch_out_db" = none := by rw [b3 _ n13, b2 _ n12, a1]
+  have k2 : p3.get? "per_degree_psd_out_mWperGHz" = none := by rw [b3 _ n23, a2]
+  have k3 : p3.get? "per_degree_psd_out_mWperSlotWidth" = none := a3
+  have done : ∀ z : Dict, z.get? "per_degree_pch_out_db" = none → z.get? "per_degree_psd_out_mWperGHz" = none →
+      z.get? "per_degree_psd_out_mWperSlotWidth" = none → degreeToYang z = .ok z := by
+    intro z z1 z2 z3
+    simp [degreeToYang, popTargets_absent _ z z1, popTargets_absent _ z z2, popTargets_absent _ z z3,
+      bind, Except.bind, pure, Except.pure]
+  split at h
+  · simp only [pure_ok] at h; subst h; exact done _ k1 k2 k3
+  · simp only [pure_ok] at h; subst h
+    exact done _ (by rw [Dict.get?_set_other _ _ _ _ (by decide), k1])
+      (by rw [Dict.get?_set_other _ _ _ _ (by decide), k2]) (by rw [Dict.get?_set_other _ _ _ _ (by decide), k3])
+
+/-- `convert_design_band` applied to its own output changes nothing -/
+theorem design_band_to_yang_idempotent (p y : Dict) (h : designBandToYang p = .ok y) : designBandToYang y = .ok y := by
+  have absent : ∀ z : Dict, z.get? "per_degree_design_bands" = none → designBandToYang z = .ok z := by
+    intro z hz; simp [designBandToYang, hz, pure, Except.pure]
+  unfold designBandToYang at h
+  split at h
+  · rename_i hn
+    simp only [pure_ok] at h; subst h; exact absent _ hn
+  · rename_i t ht
+    simp only at h
+    split at h
+    · simp only [pure_ok] at h; subst h; exact absent _ (Dict.get?_erase_same _ _)
+    · split at h
+      · simp only [pure_ok] at h; subst h
+        exact absent _ (by rw [Dict.get?_set_other _ _ _ _ (by decide), Dict.get?_erase_same])
+      · simp [attributeError] at h
+
+/-- `process_span_data` / `process_si_data` applied to their own output change nothing -/
+theorem range_to_yang_idempotent (lk dk : String) (e y : Dict) (hne : lk ≠ dk) (h : rangeToYang lk dk e = .ok y) :
+    rangeToYang lk dk y = .ok y := by
+  unfold rangeToYang at h
+  split at h
+  · rename_i hh
+    simp only [pure_ok] at h; subst h
+    simp [rangeToYang, hh, pure, Except.pure]
+  · split at h
+    · simp [keyError] at h
+    · rename_i r hr
+      simp only [bind_ok, pure_ok] at h
+      obtain ⟨d, _, rfl⟩ := h
+      have : ((e.set dk d).erase lk).has dk = true := by
+        rw [Dict.has_true_iff]; exact ⟨d, by rw [Dict.get?_erase_other _ _ _ hne, Dict.get?_set_same]⟩
+      simp [rangeToYang, this, pure, Except.pure]
+
+/-- `convert_loss_coeff_list` applied to its own output changes nothing -/
+theorem loss_coef_to_yang_idempotent (p y : Dict) (h : lossCoefToYang p = .ok y) : lossCoefToYang y = .ok y := by
+  have absent : ∀ z : Dict, z.get? "loss_coef" = none → lossCoefToYang z = .ok z := by
+    intro z hz; simp [lossCoefToYang, hz, pure, Except.pure]
+  unfold lossCoefToYang at h
+  split at h
+  · rename_i lc hlc
+    simp only at h
+    split at h
+    · simp only [pure_ok] at h; subst h; exact absent _ (Dict.get?_erase_same _ _)
+    · simp only [bind_ok, pure_ok] at h
+      obtain ⟨vl, _, h⟩ := h
+      split at h
+      · simp only [bind, Except.bind, pure, Except.pure, Except.ok.injEq] at h
+        subst h
+        exact absent _ (by rw [Dict.get?_set_other _ _ _ _ (by decide), Dict.get?_erase_same])
+      · simp [typeError, bind, Except.bind] at h
+  · rename_i hno
+    simp only [pure_ok] at h; subst h
+    unfold lossCoefToYang
+    split
+    · rename_i lc hlc; exact absurd hlc (hno lc)
+    · rfl
+
+/-- the four converters of the way back are no-ops on their own output -/
+theorem design_band_to_legacy_idempotent (p y : Dict) (h : designBandToLegacy p = .ok y) :
+    designBandToLegacy y = .ok y := by
+  have absent : ∀ z : Dict, z.get? "per_degree_design_bands_targets" = none → designBandToLegacy z = .ok z := by
+    intro z hz; simp [designBandToLegacy, hz, pure, Except.pure]
+  unfold designBandToLegacy at h
+  split at h
+  · rename_i hn
+    simp only [pure_ok] at h; subst h; exact absent _ hn
+  · simp only at h
+    split at h
+    · simp only [pure_ok] at h; subst h; exact absent _ (Dict.get?_erase_same _ _)
+    · simp only [bind_ok] at h
+      obtain ⟨l, _, bands, _, h⟩ := h
+      split at h
+      · simp only [pure_ok] at h; subst h; exact absent _ (Dict.get?_erase_same _ _)
+      · simp only [pure_ok] at h; subst h
+        exact absent _ (by rw [Dict.get?_set_other _ _ _ _ (by decide), Dict.get?_erase_same])
+
+theorem loss_coef_to_legacy_idempotent (p y : Dict) (h : lossCoefToLegacy p = .ok y) :
+    lossCoefToLegacy y = .ok y := by
+  have absent : ∀ z : Dict, z.get? "loss_coef_per_frequency" = none → lossCoefToLegacy z = .ok z := by
+    intro z hz; simp [lossCoefToLegacy, hz, pure, Except.pure]
+  unfold lossCoefToLegacy at h
+  split at h
+  · rename_i hn
+    simp only [pure_ok] at h; subst h; exact absent _ hn
+  · simp only at h
+    split at h
+    · simp only [pure_ok] at h; subst h; exact absent _ (Dict.get?_erase_same _ _)
+    · simp only [bind_ok, pure_ok] at h
+      obtain ⟨items, _, fr, _, va, _, rfl⟩ := h
+      exact absent _ (by rw [Dict.get?_set_other _ _ _ _ (by decide), Dict.get?_erase_same])
+
+theorem range_to_legacy_idempotent (lk dk : String) (e y : Dict) (hne : lk ≠ dk) (h : rangeToLegacy lk dk e = .ok y) :
+    rangeToLegacy lk dk y = .ok y := by
+  unfold rangeToLegacy at h
+  split at h
+  · rename_i hh
+    simp only [pure_ok] at h; subst h
+    simp [rangeToLegacy, hh, pure, Except.pure]
+  · simp only [bind_ok, pure_ok] at h
+    obtain ⟨r, _, a, _, b, _, c, _, rfl⟩ := h
+    simp [rangeToLegacy, Dict.get?_erase_same, pure, Except.pure]
+
+/-! ### SI / Span power ranges (finding F6) -/
+
+/-- `[min, max, step]` → dict → `[min, max, step]` for one SI/Span entry: the list comes back, the
+dict form is gone, every other key is untouched -/
+theorem range_roundtrip (lk dk : String) (hne : lk ≠ dk) (e : Dict) (a b c : J)
+    (h1 : e.get? lk = some (.arr [a, b, c])) (h2 : e.get? dk = none) :
+    ∃ y e', rangeToYang lk dk e = .ok y ∧ rangeToLegacy lk dk y = .ok e' ∧
+      e'.get? lk = some (.arr [a, b, c]) ∧ e'.get? dk = none ∧
+      ∀ k, k ≠ lk → k ≠ dk → e'.get? k = e.get? k := by
+  have hhas : e.has dk = false := (Dict.has_false_iff e dk).2 h2
+  refine ⟨(e.set dk (.obj [("min_value", a), ("max_value", b), ("step", c)])).erase lk, ?_⟩
+  have hy : rangeToYang lk dk e
+      = .ok ((e.set dk (.obj [("min_value", a), ("max_value", b), ("step", c)])).erase lk) := by
+    simp [rangeToYang, hhas, h1, rangeToDict, idx, bind, Except.bind, pure, Except.pure]
+  have hget : ((e.set dk (.obj [("min_value", a), ("max_value", b), ("step", c)])).erase lk).get? dk
+      = some (.obj [("min_value", a), ("max_value", b), ("step", c)]) := by
+    rw [Dict.get?_erase_other _ _ _ hne, Dict.get?_set_same]
+  refine ⟨((((e.set dk (.obj [("min_value", a), ("max_value", b), ("step", c)])).erase lk).set lk
+      (.arr [a, b, c])).erase dk), hy, ?_, ?_, ?_, ?_⟩
+  · simp [rangeToLegacy, hget, asObj, Dict.get, Dict.get?, bind, Except.bind, pure, Except.pure]
+  · rw [Dict.get?_erase_other _ _ _ (Ne.symm hne), Dict.get?_set_same]
+  · rw [Dict.get?_erase_same]
+  · intro k hk1 hk2
+    rw [Dict.get?_erase_other _ _ _ (Ne.symm hk2), Dict.get?_set_other _ _ _ _ (Ne.symm hk1),
+      Dict.get?_erase_other _ _ _ (Ne.symm hk1), Dict.get?_set_other _ _ _ _ (Ne.symm hk2)]
+
+/-- a two-entry SI list (the shape of `eqpt_config_multiband.json`) -/
+def f6Doc : Dict :=
+  [("SI", .arr [.obj [("power_range_db", .arr [.int 0, .int 0, .int 1])],
+                .obj [("type_variety", .str "lband"), ("power_range_db", .arr [.int (-2), .int 1, .int 1])]])]
+
+/-- **every SI / Span entry gets its range list back** (behaviour since the repair f4882f89) -/
+theorem delta_power_range_roundtrip_witness :
+    (convertDeltaPowerRange f6Doc >>= convertBackDeltaPowerRange) = .ok f6Doc := by
+  decide
+
+/-- **F6 (repaired in /repo by f4882f89): the old converter fails the property** – after
+`convert_delta_power_range` and the old `convert_back_delta_power_range` the SECOND SI entry still
+has `power_range_dict_db` and no `power_range_db`. -/
+theorem delta_power_range_fails_old :
+    (convertDeltaPowerRange f6Doc >>= convertBackDeltaPowerRangeOld)
+      = .ok [("SI", .arr [.obj [("power_range_db", .arr [.int 0, .int 0, .int 1])],
+          .obj [("type_variety", .str "lband"),
+                ("power_range_dict_db", .obj [("min_value", .int (-2)), ("max_value", .int 1), ("step", .int 1)])]])] := by
+  decide
+
+/-! ### Raman efficiency of the equipment library (finding F7, repaired by df307dac) -/
+
+def f7Entry : Dict :=
+  [("type_variety", .str "SSMF"),
+   ("raman_efficiency", .obj [("cr", .arr [.int 0, .int 1]), ("frequency_offset", .arr [.int 0, .int 5])])]
+
+/-- the legacy spelling the entry comes back with (pinned by the repo's expected files) -/
+def f7Back : Dict :=
+  [("type_variety", .str "SSMF"),
+   ("raman_coefficient", .obj [("g0", .arr [.int 0, .int 1]), ("frequency_offset", .arr [.int 0, .int 5])])]
+
+theorem raman_efficiency_back_spelling : (ramanEffToYang f7Entry >>= ramanEffToLegacy) = .ok f7Back := by
+  decide
+
+/-- **the returned spelling converts to the same YANG entry again** (a second round trip changes
+nothing) and **the loader builds the same Raman coefficient from both spellings**: the same three
+entries (`g0`, `frequency_offset`, and the library's default reference frequency), in another key
+order -/
+theorem raman_efficiency_roundtrip_witness :
+    (ramanEffAcceptCoef f7Back >>= ramanEffToYang) = ramanEffToYang f7Entry ∧
+    fiberRaman (.int 206) f7Back = some [("g0", .arr [.int 0, .int 1]), ("frequency_offset", .arr [.int 0, .int 5]),
+      ("reference_frequency", .int 206)] ∧
+    fiberRaman (.int 206) f7Entry = some [("frequency_offset", .arr [.int 0, .int 5]), ("g0", .arr [.int 0, .int 1]),
+      ("reference_frequency", .int 206)] := by
+  decide
+
+/-- **F7 (repaired in /repo by df307dac): the old code fails the property** – the old converter does
+not recognise the returned spelling (it stays `raman_coefficient`, which libyang refuses in an
+equipment RamanFiber entry) and the old loader builds no Raman coefficient from it. -/
+theorem raman_efficiency_fails_old :
+    ramanEffToYang f7Back = .ok f7Back ∧ fiberRamanOld (.int 206) f7Back = none ∧
+    (fiberRamanOld (.int 206) f7Entry).isSome = true := by
+  decide
+
+/-! ### aliases -/
+
+/-- **every alias yields an entry with identical parameters whose reported name is that alias.**
+For an entry with `other_name = names` (strings) and name `s`, the library receives, for each
+`a ∈ names ++ [s]`, exactly the entry `(a, kwargs)` where `kwargs` is the declaring entry without
+`other_name` and with `type_variety = a`; in particular all parameters other than the name agree. -/
+theorem alias_entries (entry : Dict) (names : List String) (s : String)
+    (ho : entry.get? "other_name" = some (.arr (names.map J.str)))
+    (hs : entry.get? "type_variety" = some (.str s)) :
+    ∃ out, expandAliases entry = .ok out ∧
+      out.map (·.1) = names ++ [s] ∧
+      ∀ nd ∈ out, nd.2.get? "type_variety" = some (.str nd.1) ∧ nd.2.get? "other_name" = none ∧
+        ∀ k, k ≠ "type_variety" → k ≠ "other_name" → nd.2.get? k = entry.get? k := by
+  have hhas : entry.has "other_name" = true := (Dict.has_true_iff _ _).2 ⟨_, ho⟩
+  have hstr : ∀ l : List String, strList (l.map J.str) = .ok l := by
+    intro l
+    induction l with
+    | nil => rfl
+    | cons x xs ih => simp [strList, ih, bind, Except.bind, pure, Except.pure]
+  have hnames : aliasNames entry = .ok (names ++ [s]) := by
+    simp [aliasNames, hs, Dict.get, ho, asArr, hstr names, bind, Except.bind, pure, Except.pure]
+  refine ⟨(names ++ [s]).map (fun n => (n, (entry.set "type_variety" (.str n)).erase "other_name")), ?_, ?_, ?_⟩
+  · simp [expandAliases, hhas, hnames, bind, Except.bind, pure, Except.pure]
+  · simp [List.map_map, Function.comp_def]
+  · intro nd hnd
+    simp only [List.mem_map] at hnd
+    obtain ⟨n, _, rfl⟩ := hnd
+    refine ⟨?_, ?_, ?_⟩
+    · rw [Dict.get?_erase_other _ _ _ (by decide), Dict.get?_set_same]
+    · rw [Dict.get?_erase_same]
+    · intro k hk1 hk2
+      rw [Dict.get?_erase_other _ _ _ (Ne.symm hk2), Dict.get?_set_other _ _ _ _ (Ne.symm hk1)]
+
+/-- the corpus witness: `T0` with aliases `A`, `B` -/
+def t0Entry : Dict :=
+  [("type_variety", .str "T0"), ("other_name", .arr [.str "A", .str "B"]), ("mode", .arr [])]
+
+/-- **F4 (repaired in /repo): the Transceiver code before the repair fails the property** – the
+entries stored under `A`, `B`, `T0` reported the names `T0`, `A`, `B`. -/
+theorem alias_fails_pre_fix :
+    (expandAliasesF4 t0Entry).map (fun l => l.map (fun nd => (nd.1, nd.2.get? "type_variety")))
+      = .ok [("A", some (.str "T0")), ("B", some (.str "A")), ("T0", some (.str "B"))] := by
+  decide
+
+example : (expandAliases t0Entry).map (fun l => l.map (fun nd => (nd.1, nd.2.get? "type_variety")))
+      = .ok [("A", some (.str "A")), ("B", some (.str "B")), ("T0", some (.str "T0"))] := by
+  decide
+
+end Gnpy.Yang
